@@ -555,6 +555,11 @@ def nodup_tie(tier, tag):
         for seq in itertools.product(range(len(alpha)), repeat=n):
             if alpha[seq[-1]] != [2]: continue
             seqs.append([alpha[i] for i in seq] + [[2], [2]])
+    # three pushes then pops over a smaller alphabet (one depth, two values): a duplicate push that only raises the ub of an entry waiting
+    # below a smaller-ub parent must restore the heap order
+    small = [[1, s, 0, v, u, 0] for s in (0, 1) for v in (0, 1) for u in (0, 1, 2)]
+    for seq in itertools.product(range(len(small)), repeat=3):
+        seqs.append([small[i] for i in seq] + [[2], [2], [2]])
     lines = []
     for ops in seqs:
         toks = []; t = 0
